@@ -27,7 +27,9 @@ for lay, flay in QUICK + ALL:
                 continue
             seen.add(key)
             quick = (lay, flay) in QUICK and b in (1, 2, 3) and (rs == 0 or b == 2)
-            thorough = quick or rs == 0 or (lay, flay) in QUICK
+            # thorough: every reorg point and restart for the quick layouts; every two-block layout with the one-bridge fork and a
+            # reorg at block 1..3 (all 540 layout/fork/reorg combinations took over an hour)
+            thorough = quick or (lay, flay) in QUICK or (rs == 0 and flay == [1] and b in (1, 2, 3))
             if not thorough:
                 continue
             OBLIGATIONS.append(dict(
@@ -86,4 +88,4 @@ for chain, fork, b, rs, tiers in L1CASES:
                "latest info, rollup exit root, local exit roots and their proofs, last verified batches - all compared with the contract reference"))
 ASSUMPTIONS = ["SQL model incl. ON DELETE CASCADE only when the DSN built by the real NewSQLiteDB enables foreign keys",
                "Keccak collision-freeness for store keys; bridge leaves are non-zero"]
-OUTSIDE = "LIKE-filtered paged listings; token mappings / legacy token migrations (not yet in the harness); injected-GER store: C16.a (reorg parameter)"
+OUTSIDE = "LIKE-filtered paged listings; injected-GER store: C16.a (reorg parameter)"
